@@ -78,13 +78,17 @@ func c06Specs(tier string, seed int) []c06Spec {
 				if tier == "thorough" {
 					dd = 3
 				}
-				out = append(out, c06Spec{Base: b, GWMode: "poly", GH: hl[0], GL: hl[1], Phase: ph, Alpha: []string{"dry-hot-windy", "heavy", "drizzle"}, D: dd, Rep: 12})
+				out = append(out, c06Spec{Base: b, GWMode: "poly", GH: hl[0], GL: hl[1], Phase: ph, Alpha: []string{"dry-hot-windy", "heavy", "drizzle", "zero-flux"}, D: dd, Rep: 12})
 			}
 		}
 		// groundwater time series: every level word, weather constant per run
 		lv := []float64{1, float64(n) / 2, float64(n)/2 + 0.5, float64(n), 25}
-		for _, sym := range []string{"drizzle", "dry-hot-windy", "heavy"} {
+		// (zero-flux: a day without rain whose potential evapotranspiration is clipped to zero, i.e. no surface flux at all)
+		for _, sym := range []string{"drizzle", "dry-hot-windy", "heavy", "frost", "zero-flux"} {
 			b := e1Base{Soil: so, GW: 99, InitW: 0.6, InitN: 20, ET: 3}
+			if sym == "zero-flux" {
+				b.ET = 1 // Haude with a saturation deficit of exactly 0: potential ET is 0, no rain -> no surface flux
+			}
 			out = append(out, c06Spec{Base: b, GWMode: "series", Levels: lv, Alpha: []string{sym}, D: d})
 		}
 	}
@@ -237,6 +241,12 @@ type c06Probe struct {
 	peatCls string
 }
 
+func c06Debug(g *hermes.GlobalVarsMain, zeit int) {
+	if os.Getenv("C06_DEBUG") != "" {
+		fmt.Printf("day %d GRW=%.3g FLUSS0=%g WG=%.4v W=%.4v\n", zeit, g.GRW, g.FLUSS0, g.WG[1][:g.N], g.W[:g.N])
+	}
+}
+
 func (l *c06Probe) probe() *hermes.VerifProbe {
 	return &hermes.VerifProbe{
 		AfterEvatra: func(g *hermes.GlobalVarsMain, zeit int, w *hermes.WaterSharedVars) {
@@ -265,6 +275,7 @@ func (l *c06Probe) probe() *hermes.VerifProbe {
 			}
 		},
 		DayEnd: func(g *hermes.GlobalVarsMain, zeit int, steps, wdt float64, cs *hermes.CropSharedVars, w *hermes.WaterSharedVars) {
+			c06Debug(g, zeit)
 			N := g.N
 			l.c.Transition(1)
 			h := mc.NewHasher().Fs(g.WG[1][:N]).Fs(g.W[:N]).F(g.GRW)
@@ -369,7 +380,7 @@ func c06Run(raw json.RawMessage, c *mc.Ctx) {
 	written := false
 	for _, r := range runs {
 		full := repeatWord(r.w, sp.Rep)
-		p.Weather = e1Weather(warm, full, false)
+		p.Weather = e1Weather(warm, full, sp.Base.ET == 1)
 		if sp.GWMode == "series" {
 			// level of the first word day holds from the start; then one point per word day
 			p.GWSeries = []proj.GWPoint{{Date: isoAdd(h0, -2), Level: r.lw[0]}}
